@@ -53,9 +53,19 @@ def facts (_ : Lean.Json) : Lean.Json := Id.run do
     ("spaces", toJson spaces), ("lower", Lean.Json.arr lower), ("bad", Lean.Json.arr #[]),
     ("intBits", toJson (64 : Nat))])]
 
+/-- stable insertion of `e` by field name (after the entries with the same or a smaller name) -/
+def insertByField (e : Entry) : List Entry → List Entry
+  | [] => [e]
+  | x :: r => if e.leaf.goName < x.leaf.goName then e :: x :: r else x :: insertByField e r
+
+/-- Statements of applySettingsMap that write different fields commute: the table is compared
+    after a stable sort by field (the harness sorts the extracted table the same way), so the
+    order of the statements writing ONE field is kept and the rest is forgotten. -/
+def sortByField (l : List Entry) : List Entry := l.foldl (fun acc e => insertByField e acc) []
+
 /-- op c19.keys -/
 def keys (_ : Lean.Json) : Lean.Json :=
-  let entries := keyTable.map fun e => Lean.Json.mkObj [
+  let entries := (sortByField keyTable).map fun e => Lean.Json.mkObj [
     ("g", toJson (e.group.getD "")), ("k", toJson e.key), ("c", toJson e.leaf.coerce.name),
     ("f", toJson e.leaf.goName), ("x", toJson e.leaf.xform)]
   let norm := normRules.map fun r => Lean.Json.mkObj [("f", toJson r.leaf.goName),
